@@ -51,6 +51,9 @@ type c18xInput struct {
 	Keys   []int    `json:"keys,omitempty"` // index into the key pool; -1 = malformed key bytes
 	Sigs   []int    `json:"sigs,omitempty"` // index of the signing key; -1 = invalid signature (random bytes); -2 = valid signature of another message
 	Seed   uint64   `json:"seed,omitempty"`
+	P      string   `json:"p,omitempty"`   // NEP-2: passphrase the key is encrypted with (hex of the bytes: may be invalid UTF-8)
+	Q      string   `json:"q,omitempty"`   // NEP-2: passphrase tried for decryption (hex)
+	Raw    string   `json:"raw,omitempty"` // hex of the bytes of the text input (replaces S: JSON cannot carry invalid UTF-8)
 }
 
 func coqStrZ(s string) string { return coqBytes([]byte(s)) }
@@ -73,6 +76,10 @@ func c18xRun(co *caseOut, kind string, in c18xInput) {
 }
 
 func c18xRunInner(co *caseOut, kind string, in c18xInput) {
+	if in.Raw != "" { // the text as bytes (JSON strings cannot carry invalid UTF-8); replaces S
+		t := string(unhx(in.Raw))
+		in.S = &t
+	}
 	switch kind {
 	case "b58_enc":
 		b := unhx(in.Bytes)
@@ -288,6 +295,14 @@ func c18xRunInner(co *caseOut, kind string, in c18xInput) {
 		c18Ecdsa(co, in)
 	case "keycurve":
 		c18KeyCurve(co, in)
+	case "nep2":
+		c18Nep2(co, in)
+	case "nep2vec":
+		c18Nep2Vector(co, in)
+	case "nep2frame":
+		c18Nep2Frame(co, in)
+	case "strsweep":
+		c18StrSweep(co, in)
 	default:
 		panic("unknown kind " + kind)
 	}
@@ -774,6 +789,8 @@ func c18xGenerate(co *caseOut, r *rng, cf *commonFlags) {
 	for i := 0; i < n/4+6; i++ {
 		c18xRun(co, "ecdsa", c18xInput{Seed: cf.seed*7919 + uint64(i)})
 	}
+	// text beyond ASCII: NEP-2 passphrases, NEP-2 envelopes, look-alikes of valid strings into every decoder
+	c18Nep2Generate(co, r, cf)
 }
 
 // ---- public keys of both curves: decoding is per requested curve and must not depend on what was decoded before ----
